@@ -365,7 +365,7 @@ def on_queued_calls(ctx, f):
     return out
 
 
-@rule('C03.e', ['C03', 'C05', 'C08', 'C07', 'C04'], floor=4)
+@rule('C03.e', ['C03', 'C05', 'C08', 'C07', 'C04', 'C18'], floor=4)
 def submission_failures_recorded_and_announced(ctx):
     """SubmissionTask._main: the try covers set_status_to_queued, the on_queued loop,
     set_status_to_running and _submit; the handler catches BaseException and, in
